@@ -337,6 +337,13 @@ func init() {
 							}
 						}
 					}
+					// ... and the bucket is written on every success path (an early `return nil` for an entry that looks like a
+					// duplicate leaves the by-source index of this call without a queue entry that deletes it)
+					if trail := qa.MustFollow(qf.Blocks[0].Instrs[0], []ssa.Instruction{setq}); trail != nil {
+						r.Bad(qk, "queue bucket written on every success path", "queueRedelegation can return success without writing the queue bucket: the record and the by-source index that addRedelegation wrote for this call have no queue entry, and nothing deletes them at maturity", trail, r.P(setq))
+					} else {
+						r.OK(qk, "queue bucket written on every success path", "every success path passes store.Set(GetRedelegationQueueKey(..))", r.P(setq))
+					}
 					if trail := qa.MustPassThrough(nil, setq, puts); trail != nil || len(puts) == 0 {
 						r.Bad(qk, "entry added before queue bucket write", "the queue bucket can be written on a path that did not add an entry for this redelegation (e.g. merged into another entry): the by-source index written by addRedelegation for this call has no queue entry that will delete it at maturity", trail, r.P(setq))
 					} else {
